@@ -294,8 +294,15 @@ func execHeadersFirst(f []string) string {
 // random interleavings, mostly parents first with some disorder and duplicates; some histories
 // restart the chain (new BlockChain on the same database with another utxo cache size).
 func genHeadersFirst(g *core.Gen) {
-	r := g.R
 	for i := 0; i < g.N(200, 1500); i++ {
+		class, nontrivial, line := hfLine(g.R)
+		g.Case(class, nontrivial, "C17 "+line)
+	}
+}
+
+// hfLine makes one headers-first history (without the property prefix).
+func hfLine(r *core.Rand) (string, bool, string) {
+	{
 		t := newTree()
 		n := r.Intn(12) + 2
 		for t.n() <= n {
@@ -388,6 +395,6 @@ func genHeadersFirst(g *core.Gen) {
 			}
 		}
 		class := []string{"hf-headers-only", "hf-blocks-only", "hf-headers-then-blocks", "hf-mixed", "hf-mixed-restarts"}[mode]
-		g.Case(class, len(ds) > 3, fmt.Sprintf("C17 hf %s %s %s", t, joinInts(bad), strings.Join(ds, " ")))
+		return class, len(ds) > 3, fmt.Sprintf("hf %s %s %s", t, joinInts(bad), strings.Join(ds, " "))
 	}
 }
